@@ -55,11 +55,20 @@ defvjp(inv, grad_inv)
 
 def grad_pinv(ans, x):
     # https://mathoverflow.net/questions/25778/analytical-formula-for-numerical-derivative-of-the-matrix-pseudo-inverse
-    return lambda g: T(
-        -_dot(_dot(ans, T(g)), ans)
-        + _dot(_dot(_dot(ans, T(ans)), g), anp.eye(x.shape[-2]) - _dot(x, ans))
-        + _dot(_dot(_dot(anp.eye(ans.shape[-2]) - _dot(ans, x), g), T(ans)), ans)
-    )
+    # (for a complex argument the transposes are conjugate transposes and the cotangent enters conjugated)
+    H = lambda a: anp.conj(T(a))
+
+    def vjp(g):
+        g = anp.conj(g)
+        return anp.conj(
+            H(
+                -_dot(_dot(ans, H(g)), ans)
+                + _dot(_dot(_dot(ans, H(ans)), g), anp.eye(x.shape[-2]) - _dot(x, ans))
+                + _dot(_dot(_dot(anp.eye(ans.shape[-2]) - _dot(ans, x), g), H(ans)), ans)
+            )
+        )
+
+    return vjp
 
 
 defvjp(pinv, grad_pinv)
